@@ -1771,6 +1771,14 @@ func runForward(r *rng, k int) (scs []*scenario, ress []runResult) {
 		act["to"] = local + "/cols/1"
 		cfg.MaxForwarding = 3
 		cfg.Filter = "all"
+	case 3: // an owned value that is no collection (an actor) addressed next to an owned collection whose id sorts after it
+		zc := local + "/users/alice/zfollowers"
+		w.Store[zc] = jmap{"@context": asCtx, "type": "Collection", "id": zc, "items": []interface{}{actorID(remote, "follower-of-alice"), actorID(remote, "dave")}}
+		w.Owned[zc] = true
+		w.Owned[alice] = true
+		act["to"] = []interface{}{alice, zc}
+		act["cc"] = actorID(local, "bob")
+		cfg.Filter = "all"
 	case 5: // two owned collections whose ids differ only in the fragment are two collections
 		for _, f := range []string{"friends", "family"} {
 			cid := local + "/lists#" + f
